@@ -1777,6 +1777,13 @@ class HTTP11ClientProtocol(Protocol):
         """
         if self._state == "CONNECTION_LOST":
             return succeed(None)
+        if self._state == "TRANSMITTING":
+            # The request is still being written, so its Deferred is not yet
+            # chained to the parser's (see cbRequestWritten).  Chain it now so
+            # that the failure reaches it, and tell the request that it does
+            # not need to continue transmitting itself.
+            self._responseDeferred.chainDeferred(self._finishedRequest)
+            self._currentRequest.stopWriting()
         self.transport.loseConnection()
         self._state = "ABORTING"
         d = Deferred()
